@@ -121,10 +121,15 @@ out = ["--------------------------- MODULE SchemeVectors -----------------------
        "(* GENERATED by tools/gen_scheme_vectors.py.  Anchors of ref/Schemes.tla evaluated by TLC (one vector per state):",
        "   appendix examples of GOST R 34.10-2012 (A.1, A.2), DSTU 4145-2002 (B.1), the bign96 and pfok reference vectors, tape and",
        "   hash-reduction facts, group laws on complete tiny structures.  A failing vector means the SPECIFICATION is wrong. *)",
-       "EXTENDS Schemes, FiniteSets, TLC", ""]
+       "EXTENDS Schemes, FiniteSets, TLC, IOUtils", ""]
 for n, e in V:
     out.append("V_%s(dummy) == %s" % (n, e))
-out += ["", "VecNames == {%s}" % ", ".join('"%s"' % n for n in names),
+HEAVY = ["g12s_A1_pubkey", "g12s_A1_verify", "g12s_A1_altered", "bign96_verify_det", "bign96_altered", "dstu_B1_order", "dstu_B1_verify",
+         "dstu_B1_pubkey", "pfok_symmetry"]
+out += ["", "AllNames == {%s}" % ", ".join('"%s"' % n for n in names),
+        "\\* VSEL=quick leaves out the vectors that cost several scalar multiplications (all of them run in the thorough tier)",
+        "HeavyNames == {%s}" % ", ".join('"%s"' % n for n in HEAVY if n in names),
+        'VecNames == IF "VSEL" \\in DOMAIN IOEnv /\\ IOEnv.VSEL = "quick" THEN AllNames \\ HeavyNames ELSE AllNames',
         "VecOk(n) == CASE " + "\n          [] ".join('n = "%s" -> V_%s(0)' % (n, n) for n in names), "",
         "VARIABLES phase, name, ok", 'VInit == phase = 0 /\\ name = "" /\\ ok = TRUE',
         "VNext == \\/ phase = 0 /\\ phase' = 1 /\\ name' \\in VecNames /\\ ok' = TRUE",
